@@ -57,6 +57,18 @@ fn check(src: &str) -> Result<(), String> {
             if st.goto(stidx, ridx) != sg.edge(stidx, Symbol::Rule(ridx)) { return Err(format!("state {} rule {}: goto differs from the graph edge", s, r)); }
         }
     }
+    // every state of the final graph is reachable from the start state
+    let ns = usize::from(sg.all_states_len());
+    let mut seen = vec![false; ns];
+    let mut todo = vec![usize::from(sg.start_state())];
+    seen[todo[0]] = true;
+    while let Some(s) = todo.pop() {
+        for (_, tgt) in sg.edges(StIdx(s as u32)).iter() {
+            let t = usize::from(*tgt);
+            if !seen[t] { seen[t] = true; todo.push(t); }
+        }
+    }
+    if let Some(u) = seen.iter().position(|x| !*x) { return Err(format!("state {} of {} cannot be reached from the start state", u, ns)); }
     Ok(())
 }
 
@@ -74,9 +86,21 @@ pub fn search(_tag: &str, tier: &str) -> Option<Value> {
         let o = run(g);
         if o.fails { return Some(witness("c16_table", json!({"grammar": g}), &o)); }
     }
-    let n = if tier == "thorough" { 20000 } else { 3000 };
+    // operator grammars under precedence declarations (the same conflict in several states)
+    for seed in 1..=(if tier == "thorough" { 4000 } else { 600 }) {
+        let g = grms::ops(seed);
+        let o = run(&g);
+        if o.fails { return Some(witness("c16_table", json!({"grammar": g}), &o)); }
+    }
+    let n = if tier == "thorough" { 40000 } else { 20000 };   // (a table check takes well under a millisecond)
     for seed in 1..=n {
         let g = grms::random(seed);
+        let o = run(&g);
+        if o.fails { return Some(witness("c16_table", json!({"grammar": g}), &o)); }
+    }
+    // larger grammars (merging, re-pointed edges, states that become unreachable before the collection)
+    for seed in 1..=(if tier == "thorough" { 40000 } else { 12000 }) {
+        let g = grms::random_larger(seed);
         let o = run(&g);
         if o.fails { return Some(witness("c16_table", json!({"grammar": g}), &o)); }
     }
